@@ -1,5 +1,6 @@
 import Prom.HP.Order
 import Prom.Lemmas.Histogram
+import Prom.Lemmas.HistCuts
 /-
 C02 — Every histogram snapshot is one consistent cut of the observations.
 
@@ -9,8 +10,11 @@ tasks at any time), so the theorems hold for any number of threads and any inter
 atomic steps. Sum and buckets are uniform cells (`0..k-1` buckets, `k` the sum); an observation is
 `{w, upd}`: weight 1 and `[(bucket, 1), (sum, v)]` for `observe`, weight = count and one entry per
 non-empty local bucket plus the sum for a local-histogram flush. Exact (integer) cell arithmetic.
-The executable replay machine `Model/Conc.lean` (which the real traces are checked against) has the
-same steps; linking the two by a lemma is listed as trusted in DESIGN.
+The executable replay machine `Model/HistMachine.lean` — the machine every trace of the real
+implementation is checked against, event by event — is written over the state of this model, and
+`replay_refines` below proves that every item it accepts is a stutter or one step of the model: the
+theorems hold of every state reached while replaying a real trace, and `collect_returns_cut`
+states C02 for the values the real `collect` calls returned.
 -/
 namespace Prom.C02
 open Hp
@@ -96,6 +100,42 @@ theorem inflight_cut_is_prefix {k : Nat} {s : St} (h : Reach k s) (t : Task) (ht
 /-- **claim_order_fixed** — every step leaves the claim order as it was or appends one observation -/
 theorem claim_order_fixed {k : Nat} {s s' : St} (h : Step k s s') : s.claimed <+: s'.claimed :=
   claimed_mono h
+
+/-! ### the replay machine (the tie to the real traces) -/
+
+/-- **replay_refines** — every item (call mark, atomic / lock event with the value it returned,
+    return mark) that the replay machine accepts is a stutter or exactly one step of the proof model
+    on the abstraction `HM.abs` -/
+theorem replay_refines {s s' : HM.St} {it : Conc.Item} (h : HM.item s it = .ok s') :
+    HM.abs s' = HM.abs s ∨ Hp.Step s.bounds.length (HM.abs s) (HM.abs s') :=
+  (HM.item_refines h).2
+
+/-- … so a trace that replays without divergence ends in a reachable state of the proof model -/
+theorem replay_reaches {bounds : List UInt64} {prog : List (List String)} {tr : List Conc.Item} {s : HM.St}
+    (h : Conc.runItems HM.item (HM.init bounds prog) tr 0 = .ok s) : Reach bounds.length (HM.abs s) :=
+  HM.mreach_reach (HM.runItems_mreach tr _ _ 0 HM.MReach.init h)
+
+/-- **collect_returns_cut** — C02 for the replayed implementation: for every `collect` call that
+    returned while a trace was replayed, the value it returned (the string the real call's result is
+    compared with) is the statistics of one list `cut` of whole observations — count = total weight,
+    every bucket cell and the sum cell = total contribution — and `cut` lies, as a prefix in claim
+    order, between the observations claimed when the call started (`c0`: it contains every
+    observation that had completed by then) and those claimed when it released the lock (`c1`: it
+    excludes every observation that starts after the call returned). -/
+theorem collect_returns_cut {bounds : List UInt64} {prog : List (List String)} {s : HM.St}
+    (h : HM.MReach bounds prog s) :
+    ∀ r ∈ s.cuts, r.rv = HM.showSnap bounds.length (totW r.cut) (fun c => tot r.cut c) ∧
+      r.c0 <+: r.cut ∧ r.cut <+: r.c1 ∧ r.c1 <+: s.core.claimed := by
+  intro r hr
+  have I := HM.cutInv_reach h
+  obtain ⟨snap, hmem, hrv⟩ := I.vals r hr
+  have hsn := Hp.snapshot_is_prefix (HM.mreach_reach h) (snap, r.cut) (by simpa [HM.abs] using hmem)
+  have hb := HM.mreach_bounds h
+  refine ⟨?_, (I.recs r hr).1, (I.recs r hr).2.1, (I.recs r hr).2.2⟩
+  rw [hrv, hb]
+  have h1 : snap.count = totW r.cut := hsn.1
+  have h2 : snap.cell = fun c => tot r.cut c := funext hsn.2
+  rw [h1, h2]
 
 /-- non-vacuity: a reachable state with one observer and one collector that has returned a snapshot
     is built by `Reach.step`; here the simplest instance — the initial state is reachable and the
